@@ -35,7 +35,9 @@ def EXHAUSTIVE(tier):
     return False
 
 
-POOLS = [["FDD", "SSIcov", "pLSCF"], ["EFDD", "SSIdat", "FSDD"], ["SSIcov", "noparams:SSIdat", "FDD"]]
+POOLS = [["FDD", "SSIcov", "pLSCF"], ["EFDD", "SSIdat", "FSDD"], ["SSIcov", "noparams:SSIdat", "FDD"],
+         # same segment length, different spectral settings: equal-shaped but different intermediate arrays
+         ["FDD", "FDD@cor", "EFDD@256"]]
 
 
 def cases(tier, seed):
@@ -45,7 +47,9 @@ def cases(tier, seed):
         syms = [("add", i) for i in range(3)] + [("run", i) for i in range(3)] + [("mpe", i) for i in range(3)] + [("run_all", -1)]
         seqs = [list(s) for n in range(1, L + 1) for s in itertools.product(range(len(syms)), repeat=n)]
         if pi == 2:  # the pool with a parameterless member: shorter enumeration is enough for the gating clauses
-            seqs = [s for s in seqs if len(s) <= (3 if tier == "quick" else 3)]
+            seqs = [s for s in seqs if len(s) <= 3]
+        if pi == 3:  # isolation pool: only sequences made of add / run / run_all matter (mpe variants are covered by pools 0, 1)
+            seqs = [s for s in seqs if len(s) <= 3] if tier == "quick" else seqs
         for c0 in range(0, len(seqs), 60):
             out.append({"cls": "enumerated", "pool": pi, "seqs": seqs[c0:c0 + 60], "k": c0})
     ns, nm = (60, 16) if tier == "quick" else (1200, 200)
@@ -74,6 +78,10 @@ def make_alg(kind, name):
     from pyoma2 import algorithms as A_
     noparams = kind.startswith("noparams:")
     kind = kind.split(":")[-1]
+    if "@" in kind:
+        base, var = kind.split("@")
+        kwv = {"cor": dict(nxseg=256, method_SD="cor"), "256": dict(nxseg=256, pov=0.25), "cor512": dict(nxseg=512, method_SD="cor")}[var]
+        return getattr(A_, base)(name=name, **kwv)
     cls = getattr(A_, kind)
     if noparams:
         return cls(name=name)
@@ -84,7 +92,7 @@ def make_alg(kind, name):
 
 
 def mpe_kwargs(kind, fn):
-    kind = kind.split(":")[-1].replace("_MS", "")
+    kind = kind.split(":")[-1].replace("_MS", "").split("@")[0]
     if kind == "FDD":
         return dict(sel_freq=list(fn), DF=2.0)
     if kind in ("EFDD", "FSDD"):
@@ -291,7 +299,7 @@ def run_sampled(ctx, case, ms):
         pool = [str(x) for x in rng.permutation(["FDD_MS", "EFDD_MS", "SSIcov_MS", "SSIdat_MS", "pLSCF_MS"])[:3]]
         tag = "step@history(PreGER)"
     else:
-        pool = [str(x) for x in rng.permutation(["FDD", "EFDD", "FSDD", "SSIcov", "SSIdat", "pLSCF"])]
+        pool = [str(x) for x in rng.permutation(["FDD", "EFDD", "FSDD", "SSIcov", "SSIdat", "pLSCF", "FDD@cor", "EFDD@256", "FSDD@cor512"])][:6]
         if rng.random() < 0.3:
             pool[int(rng.integers(0, len(pool)))] = "noparams:SSIcov"
         tag = "step@history(sampled, six classes)"
